@@ -123,6 +123,40 @@ func sxBounds(b *geom.Bounds) string {
 
 func genC08(r *Rng, e *Emitter, n int) {
 	allLayouts := []geom.Layout{geom.XY, geom.XYZ, geom.XYM, geom.XYZM, 5, 6, 8}
+	// deep nesting and long geometries: recursion into collections has no depth at which it may stop,
+	// and loops over coordinates no block size at which they may slip
+	for _, depth := range []int{200, 10500} {
+		inner := geom.NewLineStringFlat(geom.XYZ, []float64{5, 6, 7, -1, 9, 2})
+		var g geom.T = inner
+		sx := fmt.Sprintf("(f %d %d %s)", int(inner.Layout()), inner.Stride(), sxCoord(inner.FlatCoords()))
+		for d := 0; d < depth; d++ {
+			g = geom.NewGeometryCollection().MustPush(g)
+			sx = "(c 0 (" + sx + "))"
+		}
+		shallow := geom.NewPointFlat(geom.XY, []float64{1, 1})
+		top := geom.NewGeometryCollection().MustPush(shallow, g)
+		tsx := fmt.Sprintf("(c 0 ((f 1 2 %s) %s))", sxCoord(shallow.FlatCoords()), sx)
+		e.tally("deep-nesting")
+		e.emit("C08.bounds", tsx, guard(func() string { return "(ok " + sxBounds(top.Bounds()) + ")" }))
+		e.emit("C08.ext", fmt.Sprintf("(1 (%s))", tsx), guard(func() string {
+			b := geom.NewBounds(geom.XY)
+			b.Extend(top)
+			return "(ok " + sxBounds(b) + ")"
+		}))
+	}
+	for _, bc := range bigCases(n >= 100000) {
+		stride, pts := bc[0], bc[1]
+		l := layoutForStride(stride)
+		f := bigFlat(stride, pts)
+		// the extreme values sit in the last coordinate
+		for j := 0; j < stride; j++ {
+			f[len(f)-stride+j] = float64(10000000 + j)
+		}
+		g := geom.NewLineStringFlat(l, f)
+		e.tally("big")
+		e.emit("C08.bounds", fmt.Sprintf("(f %d %d %s)", int(l), stride, sxCoord(f)),
+			guard(func() string { return "(ok " + sxBounds(g.Bounds()) + ")" }))
+	}
 	for i := 0; i < n; i++ {
 		switch c := r.Intn(10); {
 		case c < 2: // Bounds() of one flat geometry, any layout
